@@ -133,3 +133,85 @@ FACTS = [
 UNIT = Unit('stdex', PRELUDE + cvector_struct('cvecv', 'uint32_t') + cvector_struct('cvec16', 'size16_t'), make_cvector('cvecv', 'uint32_t') + make_cvector('cvec16', 'size16_t'),
             consts=[('VX_FACT_%d' % i, '(' + rx + ')', None) for i, rx in enumerate(FACTS) if False])
 UNIT.facts = FACTS
+
+# ---------------------------------------------------------------- cbitset<N>
+CB_SCOPE = [r'class\s+cbitset\b']
+CB_MEMBERS = S(r'(?<![\w.>])data\b', 'self->data', name='R4:members', min=0)
+CB_CONSTS = [S(r'\bunderlying_size\b', 'CB_USIZE', min=0, name='R9:underlying_size'), S(r'\bunderlying_count\b', 'CB_UCOUNT(self)', min=0, name='R9:underlying_count'),
+             S(r'(?<![\w.>])N\b', 'self->N', min=0, name='R9:N')]
+CBW = 2      # physical words
+
+
+def cb_wf(p):
+    return '(__CPROVER_w_ok(%s, sizeof(*%s)) && %s->N >= 1 && %s->N <= CB_WORDS * 64)' % ((p,) * 4)
+
+
+CB_BIT = lambda p, i: '((%s->data[(%s) / 64] >> ((%s) %% 64)) & 1)' % (p, i, i)
+
+
+def cb_frame(p, q, except_idx=None):
+    """all other bits unchanged: word-wise with the bit masked out"""
+    if except_idx is None:
+        return '__CPROVER_forall { size_t %s; (%s < CB_WORDS) ==> %s->data[%s] == __CPROVER_old(*%s).data[%s] }' % (q, q, p, q, p, q)
+    return ('__CPROVER_forall { size_t %s; (%s < CB_WORDS) ==> ((%s->data[%s] & ~(%s == (%s) / 64 ? ((uint64_t)1 << ((%s) %% 64)) : (uint64_t)0)) == (__CPROVER_old(*%s).data[%s] & ~(%s == (%s) / 64 ? ((uint64_t)1 << ((%s) %% 64)) : (uint64_t)0))) }'
+            % (q, q, p, q, q, except_idx, except_idx, p, q, q, except_idx, except_idx))
+
+
+def make_cbitset(pfx='cbitset'):
+    V = 'struct %s' % pfx
+    R = CB_CONSTS + [CB_MEMBERS, S(r'\bcheck_idx\(', '%s_check_idx(self, ' % pfx, min=0, name='R4:check_idx'), S(r'return \*this;', 'return self;', min=0, name='R4:this')]
+    fns = []
+
+    def one(method, header, csig, contract, rules=R, loops=None, harness_args='', harness_pre='', **kw):
+        name = '%s_%s' % (pfx, method)
+        h = 'void h_%s(void) { %s x; %s vx_thrown = 0; %s(&x%s); }' % (name, V, harness_pre, name, harness_args)
+        fns.append(Fn(name=name, scope=CB_SCOPE, header=header, csig=csig, contract=contract, rules=list(rules), loops=loops, harness=h,
+                      props=['C06', 'C01', 'C12'], between_ok=r'\s*(const)?\s*', **kw))
+
+    one('check_idx', r'constexpr\s+void\s+check_idx\(size_type idx\)\s*const', 'void %s_check_idx(const %s* self, size_t idx)' % (pfx, V),
+        '__CPROVER_requires(%s && vx_thrown == 0)\n__CPROVER_assigns(vx_thrown)\n/* returns only for idx < N (otherwise throws) */\n__CPROVER_ensures(idx < self->N && vx_thrown == 0)' % cb_wf('self'),
+        harness_args=', i', harness_pre='size_t i;')
+    one('set', r'constexpr\s+cbitset&\s+set\(size_type idx\)', '%s* %s_set(%s* self, size_t idx)' % (V, pfx, V),
+        '__CPROVER_requires(%s && vx_thrown == 0)\n__CPROVER_assigns(vx_thrown, __CPROVER_object_whole(self))\n'
+        '__CPROVER_ensures(idx < self->N && self->N == __CPROVER_old(self->N) && %s == 1 && __CPROVER_return_value == self)\n__CPROVER_ensures(idx < CB_WORDS * 64 && %s)'
+        % (cb_wf('self'), CB_BIT('self', 'idx'), cb_frame('self', 'vq_cbs', 'idx')),
+        harness_args=', i', harness_pre='size_t i;', replace=['%s_check_idx' % pfx])
+    one('reset', r'constexpr\s+cbitset&\s+reset\(size_type idx\)', '%s* %s_reset(%s* self, size_t idx)' % (V, pfx, V),
+        '__CPROVER_requires(%s && vx_thrown == 0)\n__CPROVER_assigns(vx_thrown, __CPROVER_object_whole(self))\n'
+        '__CPROVER_ensures(idx < self->N && self->N == __CPROVER_old(self->N) && %s == 0 && __CPROVER_return_value == self)\n__CPROVER_ensures(idx < CB_WORDS * 64 && %s)'
+        % (cb_wf('self'), CB_BIT('self', 'idx'), cb_frame('self', 'vq_cbr', 'idx')),
+        harness_args=', i', harness_pre='size_t i;', replace=['%s_check_idx' % pfx])
+    one('test', r'constexpr\s+bool\s+test\(size_type idx\)\s*const', 'bool %s_test(const %s* self, size_t idx)' % (pfx, V),
+        '__CPROVER_requires(%s && vx_thrown == 0)\n__CPROVER_assigns(vx_thrown)\n__CPROVER_ensures(idx < self->N && __CPROVER_return_value == (bool)%s)'
+        % (cb_wf('self'), CB_BIT('self', 'idx')),
+        harness_args=', i', harness_pre='size_t i;', replace=['%s_check_idx' % pfx])
+    one('add', r'constexpr\s+void\s+add\(const cbitset<N>& other\)', 'void %s_add(%s* self, const %s* other)' % (pfx, V, V),
+        '__CPROVER_requires(%s && %s && other->N == self->N)\n__CPROVER_assigns(__CPROVER_object_whole(self))\n'
+        '/* set union, word by word */\n__CPROVER_ensures(self->N == __CPROVER_old(self->N) && __CPROVER_forall { size_t vq_cba; (vq_cba < CB_WORDS) ==> (vq_cba < CB_UCOUNT(self) ==> self->data[vq_cba] == (__CPROVER_old(*self).data[vq_cba] | other->data[vq_cba])) && (vq_cba >= CB_UCOUNT(self) ==> self->data[vq_cba] == __CPROVER_old(*self).data[vq_cba]) })'
+        % (cb_wf('self'), cb_wf('other').replace('w_ok', 'r_ok')),
+        rules=[S(r'other\.data', 'other->data')] + R,
+        loops={0: '__CPROVER_assigns(i, __CPROVER_object_whole(self))\n__CPROVER_loop_invariant(i <= CB_UCOUNT(self) && self->N == __CPROVER_loop_entry(self->N) && __CPROVER_forall { size_t vq_cbl; (vq_cbl < CB_WORDS) ==> ((vq_cbl < i ==> self->data[vq_cbl] == (__CPROVER_loop_entry(*self).data[vq_cbl] | other->data[vq_cbl])) && (vq_cbl >= i ==> self->data[vq_cbl] == __CPROVER_loop_entry(*self).data[vq_cbl])) })\n__CPROVER_decreases(CB_UCOUNT(self) - i)'},
+        harness_args=', &y', harness_pre='%s y;' % V)
+    one('eq', r'constexpr\s+bool\s+operator\s*==\s*\(const cbitset<N>& other\)\s*const', 'bool %s_eq(const %s* self, const %s* other)' % (pfx, V, V),
+        '__CPROVER_requires(%s && %s && other->N == self->N)\n__CPROVER_assigns()\n'
+        '/* equal iff every word in use is equal */\n__CPROVER_ensures(__CPROVER_return_value == __CPROVER_forall { size_t vq_cbe; (vq_cbe < CB_WORDS) ==> (vq_cbe < CB_UCOUNT(self) ==> self->data[vq_cbe] == other->data[vq_cbe]) })'
+        % (cb_wf('self').replace('w_ok', 'r_ok'), cb_wf('other').replace('w_ok', 'r_ok')),
+        rules=[S(r'other\.data', 'other->data')] + R,
+        loops={0: '__CPROVER_assigns(i)\n__CPROVER_loop_invariant(i <= CB_UCOUNT(self) && __CPROVER_forall { size_t vq_cbq; (vq_cbq < CB_WORDS) ==> (vq_cbq < i ==> self->data[vq_cbq] == other->data[vq_cbq]) })\n__CPROVER_decreases(CB_UCOUNT(self) - i)'},
+        harness_args=', &y', harness_pre='%s y;' % V)
+    return fns
+
+
+def cbitset_struct(pfx='cbitset', words=CBW):
+    return ('#define CB_WORDS %d\n#define CB_USIZE ((size_t)(sizeof(uint64_t) * 8))\n'
+            'typedef uint64_t underlying_type;\nstruct %s { size_t N; /* ghost: template parameter */ uint64_t data[CB_WORDS]; };\n'
+            '#define CB_UCOUNT(s) (((s)->N / CB_USIZE) + (((s)->N %% CB_USIZE) ? 1 : 0))\n' % (words, pfx))
+
+
+CB_FACTS = [r'static const size_type underlying_size = sizeof\(underlying_type\) \* 8;',
+            r'static const size_type underlying_count = \(N / underlying_size\) \+ \(\(N % underlying_size\) \? 1 : 0\);',
+            r'underlying_type data\[underlying_count\] = \{\};', r'using underlying_type = std::uint64_t;']
+
+UNIT = Unit('stdex', PRELUDE + cvector_struct('cvecv', 'uint32_t') + cvector_struct('cvec16', 'size16_t') + cbitset_struct(),
+            make_cvector('cvecv', 'uint32_t') + make_cvector('cvec16', 'size16_t') + make_cbitset())
+UNIT.facts = FACTS + CB_FACTS
